@@ -3,6 +3,7 @@ import GSProofs.Lemmas.ConcurrentCleanSys
 import GSProofs.Lemmas.ConcurrentCleanRoot
 import GSProofs.Lemmas.ConcurrentCleanAlign
 import GSProofs.Lemmas.ConcurrentCleanLocal
+import GSProofs.Lemmas.ConcurrentCleanResult
 /-!
 # C20 — the cleanliness hypothesis of `shared_store_follows`, clause by clause
 
@@ -51,12 +52,18 @@ well-formedness hypotheses that `partial_shared_store_counterexample` shows to b
 of a request with a dedup key of its own over the shared store = its result ALONE over the store as it
 was when it was issued, for every schedule.
 
-NOT proved: `alone_result_store_independent` — the RESULT (delivered nodes, missing-block errors) of the
-complete alone run is the same for every `st ⊆ rem` (= the reference traversal `refTrav` over `rem`),
-which would put the SOLO result (initial store) on the right-hand side of `partial_shared_store_wf` also
-for requests issued after the store has grown; the relation between the alone run inside the n-request
-system and the one-request system `solo` (index 0); batched deliveries (`runB`).  The delivery discipline
-is the model's: one response item per message, terminal status in a message of its own.
+The RESULT: `alone_result_reference` — with the root held by the responder, the result (delivered nodes,
+missing-block errors, nodes handed to the caller) of every complete alone run, from ANY `st ⊆ rem`, is the
+reference traversal `refEvs` of the link tree over the responder's store (invariant `RES`,
+`Lemmas/ConcurrentCleanResult.lean`); hence `alone_result_store_independent`, and
+`shared_store_result_reference`: over the SHARED store, under every schedule of the whole system complete
+for it, a request with a dedup key of its own delivers exactly the reference traversal over the
+responder's store — whenever it is issued and whatever the others store.
+
+NOT proved: the relation between the alone run inside the n-request system and the one-request system `solo`
+(index 0; both are now equal to `refEvs` only once `solo` is shown to be such an alone run); `refEvs` =
+C02's `refTrav` for `st ⊆ rem`; batched deliveries (`runB`); `own ≠ []` mixed with shared.  The delivery
+discipline is the model's: one response item per message, terminal status in a message of its own.
 -/
 namespace GS.C20
 open GS.Loader GS.Requestor GS.LinkTrack GS.Concurrent
@@ -555,6 +562,147 @@ theorem partial_shared_store_first_wf (st : List (Cid × Blk)) (rem : List Cid) 
     (fun τ' hτ' => alone_run_clean st rem lts keys i root rest hst hl hwf hroot0 hdep hdfs τ'
       (fun a ha => onlyOf_acts i post hpost a (hτ'.subset ha))) c1 c2
 
+/-! ## the result of the alone run is the reference traversal over the responder's store -/
+
+/-- the invariants of the alone run right after the request was issued (responder holds the root) -/
+theorem alone_start_inv (st : List (Cid × Blk)) (rem : List Cid) (lts : List LT) (keys : List (Option Key))
+    (i : Nat) (root : LNode) (rest : LT)
+    (hst : ∀ c, (storeGet st c).isSome = true → c ∈ rem)
+    (hl : lts[i]? = some (root :: rest)) (hwf : Loader.WF (root :: rest))
+    (hroot0 : root.path = []) (hdep : ∀ m ∈ rest, m.depth ≠ 0)
+    (hdfs : PathsDFS ((root :: rest).map (·.path))) (hrootrem : root.cid ∈ rem) :
+    ∃ R, AL R i (Concurrent.step (initSys st rem lts keys) (.start i)) ∧
+      EVM i (Concurrent.step (initSys st rem lts keys) (.start i)) ∧
+      RES (root :: rest) i (Concurrent.step (initSys st rem lts keys) (.start i)) := by
+  have hd0m : ∀ m ∈ root :: rest, m.depth = 0 → m.cid ∈ rem := depth0_of_root rem root rest hdep hrootrem
+  cases hroot : storeGet st root.cid with
+  | none =>
+    obtain ⟨a0, e0⟩ := AL_start st rem lts keys i root rest hl hroot hwf hd0m
+    obtain ⟨hP1, _, hP3, _⟩ := reqStart_pk st root rest hroot
+    refine ⟨_, a0, e0, RES_of_start st rem lts keys i (root :: rest) (root :: rest) hl ?_ ?_⟩
+    · rw [hP1.ph, hP1.todo]; rfl
+    · rw [hP3]
+      exact resApp_nil_left _
+  | some b =>
+    have hrh : holds st root.cid = true := by unfold holds; rw [hroot]; rfl
+    have hsplit : rest.takeWhile (fun m => holds st m.cid) ++ rest.dropWhile (fun m => holds st m.cid) = rest :=
+      List.takeWhile_append_dropWhile
+    have htw : ∀ m ∈ rest.takeWhile (fun m => holds st m.cid), holds st m.cid = true :=
+      fun m hm => mem_takeWhile_pos (fun m => holds st m.cid) rest m hm
+    cases hdw : rest.dropWhile (fun m => holds st m.cid) with
+    | nil =>
+      have hall := all_of_dropWhile_nil (fun m : LNode => holds st m.cid) rest hdw
+      have hcov : GS.C24.Covers st (root :: rest) := by
+        intro m hm
+        rcases List.mem_cons.mp hm with rfl | hm
+        · exact hrh
+        · exact hall m hm
+      obtain ⟨a0, e0⟩ := AL_start_local st rem lts keys i (root :: rest) hl hcov
+      obtain ⟨hP1, hP2⟩ := reqStart_local st (root :: rest) hcov
+      refine ⟨_, a0, e0, RES_of_start st rem lts keys i (root :: rest) [] hl ?_ ?_⟩
+      · rw [hP1]; rfl
+      · rw [hP2]
+        have := refEvs_prefix (remf rem) (root :: rest) [] 0
+          (fun m hm => by simpa [remf] using hst m.cid (hcov m hm))
+        rw [List.append_nil] at this
+        exact this.symm
+    | cons n post =>
+      have hnm : holds st n.cid = false := dropWhile_head_neg (fun m : LNode => holds st m.cid) rest n post hdw
+      rw [hdw] at hsplit
+      generalize rest.takeWhile (fun m => holds st m.cid) = pre' at hsplit htw
+      subst hsplit
+      have hdfs' : PathsDFS ((root :: pre').map (·.path)) := by
+        have e : (root :: (pre' ++ n :: post)).map (·.path) = (root :: pre').map (·.path) ++ (n :: post).map (·.path) := by
+          simp
+        rw [e] at hdfs
+        exact PathsDFS.prefix _ _ hdfs
+      have hheld : ∀ m ∈ root :: pre', holds st m.cid = true := by
+        intro m hm
+        rcases List.mem_cons.mp hm with rfl | hm
+        · exact hrh
+        · exact htw m hm
+      obtain ⟨a0, e0⟩ := AL_start_prefix st rem lts keys i root pre' n post hl hst hheld hnm hroot0 hdfs' hwf hd0m
+      obtain ⟨hP1, _, _, _, hP5⟩ := reqStart_prefix st root pre' n post hheld hnm hroot0 hdfs'
+      refine ⟨_, a0, e0, RES_of_start st rem lts keys i (root :: pre' ++ n :: post) (n :: post) hl ?_ ?_⟩
+      · rw [hP1.ph, hP1.todo]; rfl
+      · rw [hP5, resOfEvs_append]
+        have h1 : resOfEvs [Ev.sentNew (pre'.length + 1)] = ([], [], 0) := rfl
+        rw [h1, resApp_nil]
+        have := refEvs_prefix (remf rem) (root :: pre') (n :: post) 0
+          (fun m hm => by simpa [remf] using hst m.cid (hheld m hm))
+        exact this.symm
+
+/-- **C20.alone_result_reference** (the RESULT of the alone run does not depend on the local store).  Link
+    tree well formed, the responder holds the root, ANY local store `st ⊆ rem`, ANY schedule of the
+    request's actions that is complete for it: the delivered nodes, the missing-block errors and the number
+    of nodes handed to the caller are the reference traversal of the link tree over the RESPONDER's
+    store (`refEvs`: a link is delivered iff the responder holds its block, a missing link is reported and
+    its subtree skipped) — the same for every `st`. -/
+theorem alone_result_reference (st : List (Cid × Blk)) (rem : List Cid) (lts : List LT) (keys : List (Option Key))
+    (i : Nat) (root : LNode) (rest : LT)
+    (hst : ∀ c, (storeGet st c).isSome = true → c ∈ rem)
+    (hl : lts[i]? = some (root :: rest)) (hwf : Loader.WF (root :: rest))
+    (hroot0 : root.path = []) (hdep : ∀ m ∈ rest, m.depth ≠ 0)
+    (hdfs : PathsDFS ((root :: rest).map (·.path))) (hrootrem : root.cid ∈ rem)
+    (τ : List Act) (hτ : ∀ a ∈ τ, a = .resp i ∨ a = .deliver i)
+    (hc : Complete i (Concurrent.run (initSys st rem lts keys) (.start i :: τ))) :
+    resultOf (Concurrent.run (initSys st rem lts keys) (.start i :: τ)) i = refEvs (remf rem) (root :: rest) := by
+  obtain ⟨R, a0, e0, r0⟩ := alone_start_inv st rem lts keys i root rest hst hl hwf hroot0 hdep hdfs hrootrem
+  have hG := (GOK_step _ (.start i) (GOK_init st rem lts keys hst)).1
+  obtain ⟨a1, r1⟩ := AL_RES_run R (root :: rest) i τ _ hτ hG a0 e0 r0
+  have hcur := cur_complete R i _ a1 hc
+  obtain ⟨r1, _⟩ := r1
+  have e : Concurrent.run (initSys st rem lts keys) (.start i :: τ)
+      = Concurrent.run (Concurrent.step (initSys st rem lts keys) (.start i)) τ := rfl
+  rw [e, resultOf_eq]
+  rw [hcur, refEvs_nil, resApp_nil, run_rem, step_rem] at r1
+  exact r1
+
+/-- **C20.alone_result_store_independent.**  Two local stores within the responder's store, two complete
+    schedules of the request alone: the same result. -/
+theorem alone_result_store_independent (st st' : List (Cid × Blk)) (rem : List Cid) (lts : List LT) (keys : List (Option Key))
+    (i : Nat) (root : LNode) (rest : LT)
+    (hst : ∀ c, (storeGet st c).isSome = true → c ∈ rem) (hst' : ∀ c, (storeGet st' c).isSome = true → c ∈ rem)
+    (hl : lts[i]? = some (root :: rest)) (hwf : Loader.WF (root :: rest))
+    (hroot0 : root.path = []) (hdep : ∀ m ∈ rest, m.depth ≠ 0)
+    (hdfs : PathsDFS ((root :: rest).map (·.path))) (hrootrem : root.cid ∈ rem)
+    (τ τ' : List Act) (hτ : ∀ a ∈ τ, a = .resp i ∨ a = .deliver i) (hτ' : ∀ a ∈ τ', a = .resp i ∨ a = .deliver i)
+    (hc : Complete i (Concurrent.run (initSys st rem lts keys) (.start i :: τ)))
+    (hc' : Complete i (Concurrent.run (initSys st' rem lts keys) (.start i :: τ'))) :
+    resultOf (Concurrent.run (initSys st rem lts keys) (.start i :: τ)) i
+      = resultOf (Concurrent.run (initSys st' rem lts keys) (.start i :: τ')) i := by
+  rw [alone_result_reference st rem lts keys i root rest hst hl hwf hroot0 hdep hdfs hrootrem τ hτ hc,
+    alone_result_reference st' rem lts keys i root rest hst' hl hwf hroot0 hdep hdfs hrootrem τ' hτ' hc']
+
+/-- **C20.shared_store_result_reference** (property C20 for requests with distinct dedup keys over the SHARED
+    default store, in its strongest form).  Any number of requests over one shared store ⊆ responder
+    store; request `i` carries a dedup key nobody else carries, its link tree is well formed and the
+    responder holds its root.  Under EVERY schedule of the whole system that issues `i` once and is
+    complete for it — whatever the other requests do, deliver and store, before and during `i`'s exchange —
+    request `i` delivers exactly the nodes, and reports missing exactly the links, of the reference
+    traversal of its link tree over the responder's store: every block the responder can supply along
+    paths it can traverse, and nothing is reported missing that it holds.  In particular the result is
+    the result of the request run alone from ANY store ⊆ rem (`alone_result_reference`). -/
+theorem shared_store_result_reference (st : List (Cid × Blk)) (rem : List Cid) (lts : List LT) (keys : List (Option Key))
+    (i : Nat) (k : Key) (pre post : List Act) (root : LNode) (rest : LT)
+    (hst : ∀ c, (storeGet st c).isSome = true → c ∈ rem)
+    (hk : keys.getD i none = some k) (hothers : ∀ j, j ≠ i → keys.getD j none ≠ some k)
+    (hpre : ∀ a ∈ pre, Act.idx a ≠ i) (hpost : ∀ a ∈ post, a ≠ .start i)
+    (hl : lts[i]? = some (root :: rest)) (hwf : Loader.WF (root :: rest))
+    (hroot0 : root.path = []) (hdep : ∀ m ∈ rest, m.depth ≠ 0)
+    (hdfs : PathsDFS ((root :: rest).map (·.path))) (hrootrem : root.cid ∈ rem)
+    (c1 : Complete i (Concurrent.run (initSys st rem lts keys) (pre ++ .start i :: post))) :
+    resultOf (Concurrent.run (initSys st rem lts keys) (pre ++ .start i :: post)) i = refEvs (remf rem) (root :: rest) := by
+  obtain ⟨_, a2, _, a4, a5, _⟩ := shared_store_follows_wf st rem lts keys i k pre post root rest hst hk hothers hpre hpost
+    hl hwf hroot0 hdep hdfs
+  have d1 : Complete i (Concurrent.run (initSys (issueStore st rem lts keys pre) rem lts keys) (.start i :: onlyOf i post)) := by
+    unfold Complete at c1 ⊢
+    rw [List.getD_eq_getElem?_getD] at c1 ⊢
+    rw [← a4, ← a5]; exact c1
+  rw [a2]
+  exact alone_result_reference (issueStore st rem lts keys pre) rem lts keys i root rest
+    (issueStore_sub st rem lts keys pre hst) hl hwf hroot0 hdep hdfs hrootrem (onlyOf i post) (onlyOf_acts i post hpost) d1
+
 /-! ## non-vacuity (test of concrete values)
 
 The system of the example at the end of `C20Shared.lean` (two requests for the DAG 7 -> 3, distinct keys,
@@ -616,5 +764,14 @@ example :
   refine ⟨?_, by decide, by decide, by decide, by decide⟩
   simp only [exLT, Loader.WF, subOf, skipSub]
   decide
+
+/-- `shared_store_result_reference`: the reference result of `exLT` over the responder store `[7, 3]`, and the
+    result of request 1 in the shared-store run of the example at the end of `C20Shared.lean` -/
+example :
+    refEvs (remf [7, 3]) exLT = ([(7, []), (3, [0])], [], 2) ∧
+    refEvs (remf [7]) exLT = ([(7, [])], [(3, [0])], 1) ∧
+    resultOf (Concurrent.run (initSys [] [7, 3] [exLT, exLT] [some 1, some 2]) (shPre ++ .start 1 :: shPost)) 1
+      = refEvs (remf [7, 3]) exLT := by
+  refine ⟨?_, ?_, ?_⟩ <;> simp [exLT, refEvs, remf, skipSub] <;> decide
 
 end GS.C20
